@@ -13,6 +13,7 @@ against the real Cache2D over a counting spy operand.
 """
 import json
 import vlib
+import cacheconc
 import csgcommon
 
 LEVEL = "model_checking"
@@ -74,6 +75,8 @@ def stage2(chk):
     chk.cov["cache_histories_replayed"] = len(cev)
     chk.cov["cache_hit_pattern_drift"] = len(getattr(chk, "last_drift", []))
     chk.sample(dict(cache_history=cev[-1]))
+    # Cache2D under concurrent callers: every interleaving of CacheConc.tla forced on the real cache
+    cacheconc.run(chk)
 
 
 def run(chk, replay):
@@ -88,7 +91,9 @@ def run(chk, replay):
         r = replay["replay"]
         chk.seed = replay.get("seed", chk.seed)
         chk.tier = replay.get("tier", chk.tier)
-        if r.get("kind") == "csg":
+        if r.get("kind") == "cacheconc":
+            cacheconc.run(chk, r["vector"])
+        elif r.get("kind") == "csg":
             csgcommon.stage1(chk, "C02", r["vector"])
         else:
             stage2(chk)
